@@ -2,6 +2,14 @@
 """Regenerates MANIFEST.json from the table below (kept as code so that the manifest is always valid)."""
 import json, subprocess
 CLAIMED = {
+ "C16": dict(technique="property-based testing: reference-written messages and generated transactions decoded by tongo, hash compared with an independent hasher; metamorphic equivalence classes for the normalised hash; every real transaction/message checked against the block's cell set",
+             text="Messages are produced by an independent block.tlb writer, so the expected identity hash is known without tongo; decoding with/without caching hashers must report exactly that hash; the normalised hash is checked against the canonical re-encoding and as a metamorphic relation (invariant under source, fee, state-init, body placement; sensitive to destination and body). All ~1300 real transactions and ~2800 messages must report hashes of cells that occur in the block. Sampling for synthetic inputs, complete for the real data set.",
+             note="Trusted: harness/internal/tlbref (message writer), R2 hasher, R3 parser. Synthetic transactions are encoded by tongo's own encoder (only the hash relation is asserted for them).",
+             design="DESIGN.md section 4 C16"),
+ "C18": dict(technique="property-based testing: generated dictionaries and trees, proofs validated by an independent Merkle-proof verifier (reference hasher, parallel walk of original and pruned tree)",
+             text="Proofs produced by ProveKeyInHashmap and by the MerkleProver cursor API are parsed by the reference parser and verified independently: stored hash/depth of the root, level-0 hash of the pruned tree, every pruned branch commits to the subtree it replaces, the proven value is readable from the proof, absent keys are refused. Sampling.",
+             note="Trusted: R2 (level-aware hasher, anchored to real Merkle cells), R3 parser, R4 dictionary codec (label decoding).",
+             design="DESIGN.md section 4 C18"),
  "C09": dict(technique="property-based testing of a program generator: random schemas -> tongo's schema compiler -> compiled scratch module -> differential check of every generated type against an independent TL reference codec; determinism by running the generator twice",
              text="Random TL schemas over the supported subset (conditional fields on every bit 0..31, vectors of builtin and declared types, bare and boxed references, unions of 2..5 constructors, functions) are compiled by tongo's tl/parser; the output must be deterministic, compile and vet; inside the compiled binary every generated type and function is exercised with generated values against the reference TL codec (bytes, decode, request decoder table, client method framing). TL half complete; the TL-B half (tlb/parser) is under construction in this revision. Sampling; batches bounded by compile time.",
              note="Trusted: harness/internal/tlref (R5), tlbind, tlrun; the go toolchain at run time. Subset limits listed in harness/c09/RULE.txt.",
